@@ -381,7 +381,20 @@ func runC05(h *Harness) {
 			}
 		}
 	}
-	h.R.Sample = map[string]any{"case": desc, "strict": strict, "authentic": authentic, "hs1": v1, "hs2(responder down)": v2}
+	v3 := "-"
+	if !authentic {
+		// step 3: the responder is back and answers authentically 'revoked'. Whatever the non-authentic answer (or
+		// the outage) left behind must not stand in the way: a cached soft-fail verdict would accept here.
+		resp.State, resp.Signer, resp.Status, resp.OtherSer, resp.RespStatus, resp.Mutate = "answer", sIssuer, rRevoked, false, ocsp.Success, nil
+		hs3 := h.Handshake(n, "hs3", w.ChainFor(cert, w.A))
+		v3 = errStr(hs3.Err)
+		h.R.Checks++
+		sc["v3"] = v3
+		if !isRevokedErr(hs3.Err) {
+			h.Violation("C05.unauthentic-cached", "shadows-authentic:"+sigClass+":"+v3, "after a non-authentic answer (%s) and an outage, the issuer's authentic 'revoked' answer was not honoured: handshake returned %s (strict=%v)", desc, v3, strict)
+		}
+	}
+	h.R.Sample = map[string]any{"case": desc, "strict": strict, "authentic": authentic, "hs1": v1, "hs2(responder down)": v2, "hs3(authentic revoked)": v3}
 	h.Cleanup(n)
 }
 
